@@ -320,8 +320,9 @@ TDubins(e) ==
       P == Starts(kn, kap, 1, MId(3))
       \* piece containing sample k (right-continuous; the last instant belongs to the last piece)
       PieceOf(k) == CHOOSE j \in 1..np : e.ki[j] <= k /\ (j = np \/ k < e.ki[j + 1])
-      speed == Mk(ns, LAMBDA k : RMax(RAbs(RSub(vels[k][1], R1)), RAbs(vels[k][2])))
-      curv == Mk(ns, LAMBDA k : PosPart(RSub(RMul(RAbs(vels[k][3]), R), R1)))
+      \* (a curve without pieces - the target is the identity - has no velocity to speak of; see `still`)
+      speed == IF np = 0 THEN <<>> ELSE Mk(ns, LAMBDA k : RMax(RAbs(RSub(vels[k][1], R1)), RAbs(vels[k][2])))
+      curv == IF np = 0 THEN <<>> ELSE Mk(ns, LAMBDA k : PosPart(RSub(RMul(RAbs(vels[k][3]), R), R1)))
       const == IF np = 0 THEN <<>> ELSE Mk(ns, LAMBDA k : RMul(RAbs(RSub(vels[k][3], kap[PieceOf(k)])), R))
       value == IF np = 0 THEN <<>>
                ELSE Mk(ns, LAMBDA k :
@@ -368,6 +369,19 @@ DubinsCandKeys(e) ==
                      ELSE IF RLt(RAdd(T, slack), Tot(cands[b])) THEN "lib.shorter" ELSE "equal"
           IN <<"dubins.cand|best." \o (IF ver THEN "verified" ELSE "rejected") \o "|" \o rel>>
 
+\* stratum only: does the target lie on a feasibility boundary of some word?  Turning circles of the start have
+\* centres (0, +-R), those of the target are target * (0, +-R); LSR / RSL need centre distance >= 2R, RLR / LRL <= 4R.
+DubinsBoundary(e) ==
+  LET R == Q(e.R)  c == V(e.target)  Rsq == RSq(R)
+      D2(s1, s3) == RAdd(RSq(RSub(c[1], RMul(RI(s3), RMul(c[3], R)))),
+                         RSq(RSub(RAdd(c[2], RMul(RI(s3), RMul(c[4], R))), RMul(RI(s1), R))))
+      Near(x, m) == RLeq(RAbs(RSub(x, RMul(RI(m), Rsq))), RMul(Dec(1, -8), Rsq))
+  IN Near(D2(1, -1), 4) \/ Near(D2(-1, 1), 4) \/ Near(D2(1, 1), 16) \/ Near(D2(-1, -1), 16)
+\* stratum only: has the returned curve a piece whose duration is within a few ulp of zero relative to t_max?
+DubinsTiny(e) ==
+  LET kn == V(e.knots)  np == Len(kn) - 1
+  IN \E j \in 1..np : RLeq(RSub(kn[j + 1], kn[j]), RMul(RPow2(-48), kn[np + 1]))
+
 CDubins(e) ==
   LET dom0 == DubinsDomain(e)
       ret == Len(dom0) = 0 /\ e.status = 0
@@ -379,12 +393,14 @@ CDubins(e) ==
                    IN IF np = 0 THEN "empty" ELSE Word(Mk(np, LAMBDA j : vels[e.ki[j]][3]), 1)
       rcl == IF ~judged THEN "-" ELSE LET R == Q(e.R) IN IF RLt(R, R1) THEN "R<1" ELSE IF RLeq(R, R1) THEN "R=1" ELSE "R>1"
       str == "K" \o ToString(e.K) \o "|" \o word \o "|" \o rcl
+      geom == IF Len(dom0) > 0 THEN "-" ELSE IF DubinsBoundary(e) THEN "boundary" ELSE "interior"
+      tiny == IF ret /\ Len(dom) = 0 /\ FinV(e.knots) THEN (IF DubinsTiny(e) THEN "tiny" ELSE "regular") ELSE "-"
   IN [bad |-> IF Len(dom) > 0 THEN dom
               ELSE IF e.status # 0 THEN NoReturn("C14.dubins.path", e)
               ELSE IF ~fin THEN NonFinite("C14.dubins.path.finite") ELSE TDubins(e),
       stratum |-> str,
-      keys |-> <<"dubins|" \o str>> \o (IF judged THEN DubinsCandKeys(e) ELSE <<>>),
-      info |-> [spec |-> "-", K |-> e.K]]
+      keys |-> <<"dubins|" \o str, "dubins.geom|" \o geom, "dubins.pieces|" \o tiny>> \o (IF judged THEN DubinsCandKeys(e) ELSE <<>>),
+      info |-> [spec |-> "-", K |-> e.K, geom |-> geom, pieces |-> tiny]]
 
 ---------------------------------------------------------------------------
 \* C14.reparam : reparameterize_spline returns s : [0, T] -> [t_min, t_max], a Spline<2, double> observed through
